@@ -362,7 +362,7 @@ def remLoop (b : Int) : Nat → Int → Outcome (Option Int)
 def remCore (a : Int) (p : Nat) (b : Int) (q : Nat) : Outcome (Option Dec) :=
   match compare p q with
   | .eq => do
-    let r ← remI128 a b
+    let r ← wrappingRemI128 a b
     pure (some ⟨r, p⟩)
   | .gt =>
     match checkedMulPowTen b (p - q) with
@@ -377,7 +377,7 @@ def remCore (a : Int) (p : Nat) (b : Int) (q : Nat) : Outcome (Option Dec) :=
       let r ← remI128 sa b
       pure (some ⟨r, q⟩)
     | none => do
-      let r ← remI128 a b
+      let r ← wrappingRemI128 a b
       match ← remLoop b shift r with
       | some r => pure (some ⟨r, q⟩)
       | none => pure none
